@@ -49,20 +49,6 @@ Qed.
 Lemma frag_fexpr_ok k sc a K : frag_fexpr pv sv bound fl k sc a = Some K -> arg_ok pv sv bound fl k sc a.
 Proof. intros H. right. exists K. exact H. Qed.
 
-Lemma frag_fexpr_call k sc f fsp args sp :
-  frag_fexpr pv sv bound fl (S k) sc (Resolved.ECall (ERead f fsp) args sp) =
-  if f =? pv then None
-  else match fun_kind fl f with
-       | Some (KF ks (KF a r)) => if frag_args pv sv bound fl k sc ks args then Some (KF a r) else None
-       | _ => None
-       end.
-Proof.
-  cbn [frag_fexpr]. destruct (f =? pv); [reflexivity|]. destruct (fun_kind fl f) as [[|ks [|ka kr]]|]; try reflexivity.
-  match goal with |- (if ?x then _ else _) = (if ?y then _ else _) => replace x with y; [reflexivity|] end.
-  revert args. induction ks as [|K ks IH]; intros [|a args]; try reflexivity.
-  destruct K; cbn [frag_args]; rewrite IH; reflexivity.
-Qed.
-
 Lemma arg_frag_ok k sc K a : arg_frag k sc K a -> arg_ok pv sv bound fl k sc a.
 Proof.
   destruct K; cbn [arg_frag]; [intros H; left; exact H|]. intros (K' & H & _). eapply frag_fexpr_ok. exact H.
@@ -209,13 +195,13 @@ Proof.
     + eapply (okstep_exit pv sv bound u fl W); [exact Hok1 | exact Hrel | eapply exit_post_down; eassumption | lia | lia].
 Qed.
 
-(* ---- the call ---- *)
+(* ---- the call: the callee (a function-valued expression: a name, or computed), the arguments, the call ---- *)
 Lemma call_sim W n :
   (forall W', P_eval pv sv bound u fl W' n) -> (forall W', P_farg pv sv bound u fl W' n) -> (forall W', P_apply pv sv bound u fl W' n) ->
-  forall g k var sp0 args sp ctx c code v c' e st r st' sc l E stL F ks rk,
-    SyltSem.eval (S n) e (Resolved.ECall (ERead var sp0) args sp) st = (r, st') ->
-    expression g (Resolved.ECall (ERead var sp0) args sp) ctx c = Ok ((code, v), c') ->
-    fun_kind fl var = Some (KF ks rk) -> frag_args pv sv bound fl k sc ks args = true ->
+  forall g k kc callee args sp ctx c code v c' e st r st' sc l E stL F ks rk,
+    SyltSem.eval (S n) e (Resolved.ECall callee args sp) st = (r, st') ->
+    expression g (Resolved.ECall callee args sp) ctx c = Ok ((code, v), c') ->
+    frag_fexpr pv sv bound fl kc sc callee = Some (KF ks rk) -> frag_args pv sv bound fl k sc ks args = true ->
     ucovers u code -> ctx_ok l F E c c' ->
     rel pv sv bound u fl W sc e st E stL -> interesting r ->
     exists b l', cshape u l code b l' c c' /\ c <= v /\ v < c' /\
@@ -226,72 +212,69 @@ Lemma call_sim W n :
       | _ => exit_post pv sv bound u fl W ctx sc e c c' E stL b r st'
       end.
 Proof.
-  intros IH IHF IHap g k var sp0 args sp ctx c code v c' e st r st' sc l E stL F ks rk Hev Hlow Har Hfrag Hu Hctx Hrel Hint.
+  intros IH IHF IHap g k kc callee args sp ctx c code v c' e st r st' sc l E stL F ks rk Hev Hlow Hfc Hfrag Hu Hctx Hrel Hint.
   destruct g as [|g]; [discriminate|].
-  apply fun_kind_in in Har.
-  destruct (r_fund _ _ _ _ _ _ _ _ _ _ _ var _ Hrel Har ltac:(discriminate)) as (cf & pf & d & Hlkf & Hnthf & Hpf & Hcellf & Hd & Hdk).
-  assert (Hpk : fd_pk d = ks) by (unfold dkind in Hdk; inversion Hdk; reflexivity).
-  assert (Hrk : fd_rk d = rk) by (unfold dkind in Hdk; inversion Hdk; reflexivity). subst ks rk.
-  assert (Hvarb : var < bound).
-  { destruct (r_flb _ _ _ _ _ _ _ _ _ _ _ Hrel var); [|assumption]. unfold fnames. apply in_map_iff. eexists. split; [|exact Har]. reflexivity. }
   pose proof (frag_args_inv k sc _ args Hfrag) as Hfr.
-  cbn [expression] in Hlow. mon Hlow.
-  destruct g as [|g']; [discriminate|].
-  cbn [expression] in Hm. mon Hm. fresh_all. inj_code. rename a0 into rs. rename c1 into ca.
+  cbn [expression] in Hlow. mon Hlow. fresh_all. inj_code. destruct a as [codef vf]. rename a0 into rs. rename c0 into cf. rename c1 into ca.
   cbn [fst snd] in *.
-  (* the reference interpreter *)
-  cbn [SyltSem.eval] in Hev.
-  apply sbind_inv in Hev as [(fv & st1 & Hfv & Hev) | [(o & Hfv & ->) | (cc & Hfv & ->)]].
-  2,3: destruct n as [|n']; [cbn in Hfv; inversion Hfv; subst; destruct Hint|]; cbn [SyltSem.eval] in Hfv; rewrite Hlkf in Hfv; unfold SyltSem.read_cell in Hfv; rewrite Hnthf in Hfv; discriminate.
-  destruct n as [|n']; [cbn in Hfv; discriminate Hfv|].
-  cbn [SyltSem.eval] in Hfv. rewrite Hlkf in Hfv. unfold SyltSem.read_cell in Hfv. rewrite Hnthf in Hfv.
-  inversion Hfv; subst fv st1. clear Hfv.
-  unfold SyltSem.bind at 1 in Hev.
-  destruct (SyltSem.mapM (SyltSem.eval (S n') e) args st) as [ra st1] eqn:Hy.
-  assert (Hia : interesting ra).
-  { destruct ra; cbn in Hev; [exact I | inversion Hev; subst; exact Hint | inversion Hev; subst; exact Hint]. }
   (* structure and usage counts *)
   assert (Hoks : Forall (arg_ok pv sv bound fl k sc) args).
   { clear - Hfr. induction Hfr; constructor; [eapply arg_frag_ok; eassumption | assumption]. }
-  destruct (L_args pv sv bound u fl (S g') (L_expr_all pv sv bound u fl (S g')) (L_fexpr_all pv sv bound u fl (S g')) args k ctx (c + 1) rs ca sc l Hm0 Hoks)
-    as (_ & _ & (_ & Hca & _) & Hrsr).
-  apply ucovers_cons in Hu as [_ Hu]. apply ucovers_app in Hu as [Hua Huc].
-  assert (Hcc : 1 <= count_of u c) by (eapply Huc; [left; reflexivity | cbn [ir_uses]; left; reflexivity]).
+  destruct (L_fexpr_all pv sv bound u fl g kc callee _ ctx c codef vf cf sc l Hm Hfc) as (_ & _ & (_ & Hccf & _) & Hvf1 & Hvf2).
+  assert (HLa : forall l0, exists b2 l2, cshape u l0 (concat (map fst rs)) b2 l2 cf ca)
+    by (intros l0; destruct (L_args pv sv bound u fl g (L_expr_all pv sv bound u fl g) (L_fexpr_all pv sv bound u fl g) args k ctx cf rs ca sc l0 Hm0 Hoks) as (b2 & l2 & H2 & _); eauto).
+  destruct (HLa l) as (_ & _ & (_ & Hca & _)).
+  apply ucovers_app in Hu as [Huf Hu]. apply ucovers_app in Hu as [Hua Huc].
+  assert (Hcvf : 1 <= count_of u vf) by (eapply Huc; [left; reflexivity | cbn [ir_uses]; left; reflexivity]).
   assert (Hcnt : forall r0, In r0 rs -> 1 <= count_of u (snd r0)).
   { intros r0 Hr0. eapply Huc; [left; reflexivity | cbn [ir_uses]; right; apply in_map; exact Hr0]. }
-  (* the callee *)
-  assert (Hctx0 : ctx_ok l F E c (c + 1)) by (eapply ctx_sub; [exact Hctx | lia | lia]).
-  destruct (step_copy_fun pv sv bound u fl W sc e st F c (c + 1) E stL l c var pf (fd_fid d) Hrel Hctx0 ltac:(lia) Hcc Hvarb Hpf Hcellf) as (E1 & stL1 & F1 & Hok1 & Hdf).
-  assert (Hs0 : cshape u l [ICopy c var] (fst (agen_one u l (ICopy c var))) l c (c + 1))
-    by (apply cshape_plain; [lia | reflexivity | reflexivity | apply used_plain]).
-  assert (Hctx1 : ctx_ok l F1 E1 (c + 1) (ca + 1)) by (eapply (ctx_after pv sv bound u fl W sc e st l F E stL c (c + 1) (ca + 1)); [exact Hctx | exact Hs0 | exact Hok1]).
-  pose proof Hok1 as (Hx1 & _ & Hrel1 & _).
+  assert (Hscall : forall l0, cshape u l0 [ICall ca vf (map snd rs)] (fst (agen_one u l0 (ICall ca vf (map snd rs)))) l0 ca (ca + 1))
+    by (intros l0; apply (cshape_plain u l0 (ICall ca vf (map snd rs)) ca (ca + 1)); [lia | reflexivity | reflexivity | reflexivity]).
+  (* the reference interpreter: the callee *)
+  cbn [SyltSem.eval] in Hev. unfold SyltSem.bind at 1 in Hev.
+  destruct (SyltSem.eval n e callee st) as [rf st1] eqn:Hfv.
+  assert (Hif : interesting rf).
+  { destruct rf; [exact I | inversion Hev; subst; exact Hint | inversion Hev; subst; exact Hint]. }
+  assert (Hctx0 : ctx_ok l F E c cf) by (eapply ctx_sub; [exact Hctx | lia | lia]).
+  destruct (IHF W g kc callee _ ctx c codef vf cf e st rf st1 sc l E stL F Hfv Hm Hfc Huf Hcvf Hctx0 Hrel Hif)
+    as (b_f & l0 & Hsf & _ & _ & Hpf).
+  destruct (HLa l0) as (b_a0 & l10 & Hsa0).
+  destruct rf as [fv|o|cc].
+  2,3: (inversion Hev; subst r st';
+        eexists _, _; (split; [eapply cshape_app; [exact Hsf|]; eapply cshape_app; [exact Hsa0 | apply Hscall]|]);
+        (split; [lia|]); (split; [lia|]);
+        eapply (exit_app pv sv bound u fl W ctx sc e c cf (ca + 1)); [exact Hpf | lia]).
+  destruct Hpf as (W1 & E1 & stL1 & F1 & Hw1 & Hok1 & Hrel1 & Hd1).
+  cbn [adenotes] in Hd1. destruct Hd1 as (d & Hd & Hdk & -> & Hdf).
+  assert (Hpk : fd_pk d = ks) by (unfold dkind in Hdk; inversion Hdk; reflexivity).
+  assert (Hrk : fd_rk d = rk) by (unfold dkind in Hdk; inversion Hdk; reflexivity). subst ks rk.
+  assert (Hctx1 : ctx_ok l0 F1 E1 cf (ca + 1)) by (eapply (ctx_after pv sv bound u fl W sc e st1 l F E stL c cf (ca + 1)); [exact Hctx | exact Hsf | exact Hok1]).
+  assert (Hfs1 : fscope fl W e E1) by (destruct Hok1 as (_ & _ & Hr & _); apply (rel_fscope _ _ _ _ _ _ Hr)).
   (* the arguments *)
-  destruct (args_sim (S n') (S g') IH IHF (fd_pk d) W args k ctx (c + 1) rs ca (ca + 1) e st ra st1 sc l E1 stL1 F1 Hy Hm0 Hfr Hua Hcnt ltac:(lia) Hctx1 Hrel1 Hia)
+  unfold SyltSem.bind at 1 in Hev.
+  destruct (SyltSem.mapM (SyltSem.eval n e) args st1) as [ra st2] eqn:Hy.
+  assert (Hia : interesting ra).
+  { destruct ra; cbn in Hev; [exact I | inversion Hev; subst; exact Hint | inversion Hev; subst; exact Hint]. }
+  destruct (args_sim n g IH IHF (fd_pk d) W1 args k ctx cf rs ca (ca + 1) e st1 ra st2 sc l0 E1 stL1 F1 Hy Hm0 Hfr Hua Hcnt ltac:(lia) Hctx1 Hrel1 Hia)
     as (b_a & l1 & Hsa & Hpa).
-  assert (Hs01 : cshape u l (ICopy c var :: concat (map fst rs)) (fst (agen_one u l (ICopy c var)) ++ b_a) l1 c ca)
-    by (eapply cshape_cons; eassumption).
-  assert (Hshape : cshape u l (ICopy c var :: concat (map fst rs) ++ [ICall ca c (map snd rs)])
-                     ((fst (agen_one u l (ICopy c var)) ++ b_a) ++ fst (agen_one u l1 (ICall ca c (map snd rs)))) l1 c (ca + 1)).
-  { change (ICopy c var :: concat (map fst rs) ++ [ICall ca c (map snd rs)])
-      with ((ICopy c var :: concat (map fst rs)) ++ [ICall ca c (map snd rs)]).
-    eapply cshape_app; [exact Hs01|]. apply (cshape_plain u l1 (ICall ca c (map snd rs)) ca (ca + 1)); [lia | reflexivity | reflexivity | reflexivity]. }
-  eexists _, _. split; [exact Hshape|]. split; [lia|]. split; [lia|].
-  pose proof (rel_fscope _ _ _ _ _ _ Hrel) as Hfs0.
+  eexists _, _. split; [eapply cshape_app; [exact Hsf|]; eapply cshape_app; [exact Hsa | apply Hscall]|]. split; [lia|]. split; [lia|].
   destruct ra as [avs|o|cc]; cbn in Hev.
   - (* the arguments have values: the call, in the world the arguments end in *)
     destruct Hpa as (W2 & E2 & stL2 & F2 & Hw2 & Hok2 & Hrel2 & Hctx2 & Hds).
-    assert (Hok12 : okstep pv sv bound u fl W sc e st1 F c ca E stL (fst (agen_one u l (ICopy c var)) ++ b_a) E2 stL2 F2)
-      by (eapply (okstep_trans pv sv bound u fl W); [exact Hok1 | exact Hok2 | lia | lia]).
-    assert (Hdf2 : ldenotes F2 E2 stL2 (aexpand l1 c) (VFun (fd_fid d))).
-    { replace (aexpand l1 c) with (aexpand l c).
-      - assert (Hctx1' : ctx_ok l F1 E1 (c + 1) ca) by (eapply ctx_sub; [exact Hctx1 | lia | lia]).
-        eapply (ldenotes_step pv sv bound u fl W); [exact Hdf | exact Hok2 | apply (cx_F _ _ _ _ _ _ Hctx1')].
+    assert (Hok12 : okstep pv sv bound u fl W sc e st2 F c ca E stL (b_f ++ b_a) E2 stL2 F2).
+    { eapply (okstep_trans pv sv bound u fl W); [exact Hok1 | eapply okstep_down; [exact Hok2 | exact Hw1 | exact Hfs1] | lia | lia]. }
+    assert (Hdf2 : ldenotes F2 E2 stL2 (aexpand l1 vf) (VFun (fd_fid d))).
+    { replace (aexpand l1 vf) with (aexpand l0 vf).
+      - assert (Hctx1' : ctx_ok l0 F1 E1 cf ca) by (eapply ctx_sub; [exact Hctx1 | lia | lia]).
+        eapply (ldenotes_step pv sv bound u fl W1); [exact Hdf | exact Hok2 | apply (cx_F _ _ _ _ _ _ Hctx1')].
       - unfold aexpand. destruct Hsa as (_ & _ & Hfr1 & _). rewrite Hfr1 by lia. reflexivity. }
     assert (Hd2 : w_D W2 d) by (destruct Hw2 as (_ & _ & HD & _); apply HD; exact Hd).
-    pose proof (step_call_fun pv sv bound u fl W2 (S n') ctx sc e st1 F2 ca (ca + 1) E2 stL2 l1 ca c (map snd rs) avs d r st'
+    pose proof (step_call_fun pv sv bound u fl W2 n ctx sc e st2 F2 ca (ca + 1) E2 stL2 l1 ca vf (map snd rs) avs d r st'
                   (IHap W2) Hrel2 Hctx2 ltac:(lia) Hd2 Hdf2 Hds Hev Hint) as Hcall.
     assert (Hfs2 : fscope fl W e E2) by (destruct Hok12 as (_ & _ & Hr & _); apply (rel_fscope _ _ _ _ _ _ Hr)).
+    assert (Hw02 : wsub W W2) by (eapply wsub_trans; eassumption).
+    change (b_f ++ b_a ++ fst (agen_one u l1 (ICall ca vf (map snd rs)))) with (b_f ++ (b_a ++ fst (agen_one u l1 (ICall ca vf (map snd rs))))).
+    rewrite app_assoc.
     destruct r as [rv|o|cc].
     + destruct Hcall as (W3 & E3 & stL3 & F3 & Hw3 & Hok3 & Hd3).
       assert (Hw03 : wsub W W3) by (eapply wsub_trans; eassumption).
@@ -300,11 +283,41 @@ Proof.
     + eapply (okstep_exit pv sv bound u fl W); [exact Hok12 | exact Hrel | eapply exit_post_down; eassumption | lia | lia].
     + eapply (okstep_exit pv sv bound u fl W); [exact Hok12 | exact Hrel | eapply exit_post_down; eassumption | lia | lia].
   - inversion Hev; subst r st'. clear Hev.
-    eapply (exit_app pv sv bound u fl W ctx sc e c ca (ca + 1)); [|lia].
-    eapply (okstep_exit pv sv bound u fl W ctx sc e st st F F1 c (c + 1) ca); [exact Hok1 | exact Hrel | exact Hpa | lia | exact Hca].
+    rewrite app_assoc. eapply (exit_app pv sv bound u fl W ctx sc e c ca (ca + 1)); [|lia].
+    eapply (okstep_exit pv sv bound u fl W ctx sc e st st1 F F1 c cf ca); [exact Hok1 | exact Hrel | eapply exit_post_down; eassumption | lia | exact Hca].
   - inversion Hev; subst r st'. clear Hev.
-    eapply (exit_app pv sv bound u fl W ctx sc e c ca (ca + 1)); [|lia].
-    eapply (okstep_exit pv sv bound u fl W ctx sc e st st F F1 c (c + 1) ca); [exact Hok1 | exact Hrel | exact Hpa | lia | exact Hca].
+    rewrite app_assoc. eapply (exit_app pv sv bound u fl W ctx sc e c ca (ca + 1)); [|lia].
+    eapply (okstep_exit pv sv bound u fl W ctx sc e st st1 F F1 c cf ca); [exact Hok1 | exact Hrel | eapply exit_post_down; eassumption | lia | exact Hca].
+Qed.
+
+(* the kind of a callee *)
+Lemma callee_kind k sc callee args sp :
+  (forall fsp, callee <> ERead pv fsp) ->
+  frag_expr pv sv bound fl (S k) sc (Resolved.ECall callee args sp) = true ->
+  exists kc ks, frag_fexpr pv sv bound fl kc sc callee = Some (KF ks KP) /\ frag_args pv sv bound fl k sc ks args = true.
+Proof.
+  intros Hnp Hfrag. destruct (read_dec callee) as [(f & fsp & ->)|Hnr].
+  - rewrite frag_expr_call in Hfrag. destruct (N.eqb_spec f pv) as [->|_]; [exfalso; eapply Hnp; reflexivity|].
+    destruct (fun_kind fl f) as [[|ks [|? ?]]|] eqn:Hk; try discriminate Hfrag.
+    exists 1%nat, ks. split; [cbn [frag_fexpr]; rewrite Hk; reflexivity | exact Hfrag].
+  - rewrite (frag_expr_call2 _ _ _ _ _ _ _ _ _ Hnr) in Hfrag.
+    destruct (frag_fexpr pv sv bound fl k sc callee) as [[|ks [|? ?]]|] eqn:Hk; try discriminate Hfrag.
+    exists k, ks. split; [exact Hk | exact Hfrag].
+Qed.
+
+Lemma callee_fkind k sc callee args sp K :
+  frag_fexpr pv sv bound fl (S k) sc (Resolved.ECall callee args sp) = Some K ->
+  exists kc ks, frag_fexpr pv sv bound fl kc sc callee = Some (KF ks K) /\ frag_args pv sv bound fl k sc ks args = true.
+Proof.
+  intros Hf. destruct (read_dec callee) as [(f & fsp & ->)|Hnr].
+  - rewrite frag_fexpr_call in Hf. destruct (f =? pv); [discriminate Hf|].
+    destruct (fun_kind fl f) as [[|ks [|ka kr]]|] eqn:Hk; try discriminate Hf.
+    destruct (frag_args pv sv bound fl k sc ks args) eqn:Hfa; [|discriminate Hf]. inversion Hf; subst K.
+    exists 1%nat, ks. split; [cbn [frag_fexpr]; rewrite Hk; reflexivity | exact Hfa].
+  - rewrite (frag_fexpr_call2 _ _ _ _ _ _ _ _ _ Hnr) in Hf.
+    destruct (frag_fexpr pv sv bound fl k sc callee) as [[|ks [|ka kr]]|] eqn:Hk; try discriminate Hf.
+    destruct (frag_args pv sv bound fl k sc ks args) eqn:Hfa; [|discriminate Hf]. inversion Hf; subst K.
+    exists k, ks. split; [exact Hk | exact Hfa].
 Qed.
 
 (* a call whose result is plain *)
@@ -312,12 +325,10 @@ Lemma P_ecall_succ W n :
   (forall W', P_eval pv sv bound u fl W' n) -> (forall W', P_farg pv sv bound u fl W' n) -> (forall W', P_apply pv sv bound u fl W' n) ->
   P_ecall pv sv bound u fl W (S n).
 Proof.
-  intros IH IHF IHap g k var sp0 args sp ctx c code v c' e st r st' sc l E stL F Hnpv Hev Hlow Hfrag Hu Hctx Hrel Hint.
+  intros IH IHF IHap g k callee args sp ctx c code v c' e st r st' sc l E stL F Hnpv Hev Hlow Hfrag Hu Hctx Hrel Hint.
   destruct k as [|k]; [discriminate|].
-  rewrite frag_expr_call in Hfrag. destruct (N.eqb_spec var pv) as [->|_]; [contradiction|].
-  destruct (fun_kind fl var) as [Kf|] eqn:Har; [|discriminate Hfrag].
-  destruct Kf as [|ks [|? ?]]; try discriminate Hfrag.
-  destruct (call_sim W n IH IHF IHap g k var sp0 args sp ctx c code v c' e st r st' sc l E stL F ks KP Hev Hlow Har Hfrag Hu Hctx Hrel Hint)
+  destruct (callee_kind k sc callee args sp Hnpv Hfrag) as (kc & ks & Hfc & Hfa).
+  destruct (call_sim W n IH IHF IHap g k kc callee args sp ctx c code v c' e st r st' sc l E stL F ks KP Hev Hlow Hfc Hfa Hu Hctx Hrel Hint)
     as (b & l' & Hs & H1 & H2 & Hp).
   exists b, l'. split; [exact Hs|]. split; [exact H1|]. split; [exact H2|].
   destruct r as [y|o|cc]; cbn [eval_post]; [|exact Hp | exact Hp].
@@ -352,12 +363,8 @@ Proof.
     split; [lia|]. split; [lia|].
     exists W, E1, stL1, F1. split; [apply wsub_refl|]. split; [exact Hok1|]. split; [apply Hok1|]. cbn [adenotes]. exists d. auto.
   - (* a call that returns a function *)
-    destruct a; try discriminate Hf.
-    rewrite frag_fexpr_call in Hf. destruct (N.eqb_spec var pv) as [->|_]; [discriminate Hf|].
-    destruct (fun_kind fl var) as [Kf|] eqn:Har; [|discriminate Hf].
-    destruct Kf as [|ks [|ka kr]]; try discriminate Hf.
-    destruct (frag_args pv sv bound fl k0 sc ks args) eqn:Hfa; [|discriminate Hf]. inversion Hf; subst K. clear Hf.
-    exact (call_sim W n IH IHF IHap g k0 var _ args _ ctx c code_a va c1 e st r st1 sc l E stL F ks (KF ka kr) Hev Hlow Har Hfa Hu Hctx Hrel Hint).
+    destruct (callee_fkind k0 sc a args sp K Hf) as (kc & ks & Hfc & Hfa).
+    exact (call_sim W n IH IHF IHap g k0 kc a args sp ctx c code_a va c1 e st r st1 sc l E stL F ks K Hev Hlow Hfc Hfa Hu Hctx Hrel Hint).
   - (* a lambda *)
     cbn [frag_fexpr] in Hf.
     match type of Hf with (if ?b then _ else _) = _ => destruct b eqn:Hc; [|discriminate Hf] end.
